@@ -144,10 +144,10 @@ def pObj (s : Sexp) : Option Obj :=
       some (.pod { ns := ns, name := name, labels := l, ports := cps, ownerKind := ok, ownerName := on,
                    variant := if on == "" then "" else variantOf l cps, hostIP := hip })
   | .list [.atom "np", .atom ns, .atom name, sel, types, ing, eg] => do
-      some (.np ⟨ns, name, ← pSelNN sel, ← pDirs types, ← ing.args.mapM pNPRule, ← eg.args.mapM pNPRule⟩)
+      some (.np ⟨if ns == "-" then "" else ns, name, ← pSelNN sel, ← pDirs types, ← ing.args.mapM pNPRule, ← eg.args.mapM pNPRule⟩)
   | .list [.atom "np", .atom ns, .atom name, sel, types, ing, eg, .list [.atom "uid", _]] => do
       -- metadata.uid is not part of what the analysis reads
-      some (.np ⟨ns, name, ← pSelNN sel, ← pDirs types, ← ing.args.mapM pNPRule, ← eg.args.mapM pNPRule⟩)
+      some (.np ⟨if ns == "-" then "" else ns, name, ← pSelNN sel, ← pDirs types, ← ing.args.mapM pNPRule, ← eg.args.mapM pNPRule⟩)
   | .list [.atom "anp", .atom name, prio, subj, ing, eg] => do
       some (.anp ⟨name, ← prio.int?, ← pSubject subj, ← ing.args.mapM pARule, ← eg.args.mapM pARule⟩)
   | .list [.atom "banp", .atom name, subj, ing, eg] => do
